@@ -15,11 +15,24 @@ for line in open(sys.argv[1]):
     seed, chk, rc, nv, rest = m.groups()
     sig = re.search(r"signature: (\S+)", rest)
     res.setdefault(seed, {})[chk] = (int(rc), sig.group(1) if sig else "")
+STATUS = {
+    "C06-r2m1": "not a violation (RFC-legal, DESIGN 9.5)",
+    "C06-r2m3": "not a violation (RFC-legal, DESIGN 9.5)",
+    "C06-r5m1": "not a violation (RFC-legal, DESIGN 9.5)",
+    "C06-r5m3": "not a violation (RFC-legal, DESIGN 9.5)",
+    "C19-r5m2": "outside the domain (undocumented `versions` list with a "
+                "hole, DESIGN 9.5)",
+    "C03-r3m3": "neutralised by fix 6a82118 (was detected before it)",
+    "C08-r4m3": "neutralised by fix bf3373d (was detected before it)",
+}
 out = ["# Seeded changes x checks (quick tier)", "",
-       "Written by tools/seed_index.py from a full run of tools/"
-       "seed_matrix.sh: every check against a scratch worktree carrying "
-       "each seeded change. `own` = the check of the property the change "
-       "was written against.", "",
+       "Written by tools/seed_index.py from a run of tools/seed_own.sh "
+       "(every seeded change against the check of its own property, in a "
+       "scratch worktree carrying the change) plus the cross runs that were "
+       "made for changes their own check does not report. `own` = the check "
+       "of the property the change was written against; the last column "
+       "lists other checks known to report it (not a complete matrix: "
+       "that takes about 15 hours).", "",
        "| seed | what it breaks | needs | own check | also caught by |",
        "|---|---|---|---|---|"]
 tot = own = anyc = 0
@@ -42,7 +55,8 @@ for seed in sorted(os.listdir(os.path.join(ROOT, "seeded"))):
         seed, cell(meta.get("summary", "")),
         cell(meta.get("needs_to_manifest", "")),
         ("**caught** `%s`" % o[1]) if o and o[0] == 1 else
-        ("missed" if o else "not run"), ", ".join(others) or "-"))
+        (STATUS.get(seed) or ("missed" if o else "not run")),
+        ", ".join(others) or "-"))
 out += ["", "%d seeded changes; %d caught by their own check, %d by at "
         "least one check." % (tot, own, anyc), ""]
 open(os.path.join(ROOT, "seeded", "INDEX.md"), "w").write("\n".join(out))
